@@ -236,6 +236,9 @@ impl<W: 'static, R: 'static, T: 'static> XSequence<W, R, T> {
             return Ok(Err(base0));
         }
         let Some(len0) = seq0.len() else { return Err("first sequence is infinite"); };
+        if seq1.len().map_or(false, |len1| len0.checked_add(len1).is_none()) {
+            return Err("sequences are too long to be concatenated");
+        }
         let (parts, midpoint_lengths) = match (seq0, seq1) {
             (
                 Self::Chain {
@@ -520,8 +523,8 @@ impl<W: 'static, R: SeedableRng + RngCore + 'static, T: 'static> XSequence<W, R,
         // we have two options here, either we copy and entire array and shuffle it up to k (the "pool" method), or we remember which indices we have already picked and re-roll those if we see them(the "pick" method)
         // the pool method is better for large k, but the pick method is better for small k
         let use_pool = {
-            let exp = u64::BITS - (3 * k).leading_zeros();
-            let size_of_set = 6 + 4usize.pow(exp / 2);
+            let exp = u64::BITS - k.saturating_mul(3).leading_zeros();
+            let size_of_set = 4usize.saturating_pow(exp / 2).saturating_add(6);
             len <= size_of_set
         };
 
@@ -665,7 +668,7 @@ pub(crate) fn add_sequence_add_stack<W, R, T>(
                 Ok(a0.clone().into())
             } else {
                 let Some(len0) = seq0.len() else { return xerr(ManagedXError::new("sequence is infinite", rt)?); };
-                rt.as_ref().can_allocate((len0 + stk1.length)* size_of::<usize>())?;
+                rt.as_ref().can_allocate(len0.saturating_add(stk1.length).saturating_mul(size_of::<usize>()))?;
                 let mut arr = xraise!(seq0
                     .iter(ns, rt.clone())
                     .collect::<Result<Result<Vec<_>, _>, _>>()?);
@@ -698,7 +701,7 @@ pub(crate) fn add_sequence_addrev_stack<W, R, T>(
                 Ok(a0.clone().into())
             } else {
                 let Some(len0) = seq0.len() else { return xerr(ManagedXError::new("sequence is infinite", rt)?); };
-                rt.can_allocate((len0 + stk1.length)* size_of::<usize>())?;
+                rt.can_allocate(len0.saturating_add(stk1.length).saturating_mul(size_of::<usize>()))?;
                 let mut arr = xraise!(seq0
                     .iter(ns, rt.clone())
                     .collect::<Result<Result<Vec<_>, _>, _>>()?);
@@ -728,7 +731,7 @@ pub(crate) fn add_sequence_push<W, R, T>(
             let a1 = xraise!(eval(&args[1], ns, &rt)?);
             let seq0 = to_native!(a0, XSequence<W, R, T>);
             let Some(len0) = seq0.len() else { return xerr(ManagedXError::new("sequence is infinite", rt)?); };
-            rt.can_allocate((len0 + 1)* size_of::<usize>())?;
+            rt.can_allocate(len0.saturating_add(1).saturating_mul(size_of::<usize>()))?;
             let mut arr = xraise!(seq0
                 .iter(ns, rt.clone())
                 .collect::<Result<Result<Vec<_>, _>, _>>()?);
@@ -752,7 +755,7 @@ pub(crate) fn add_sequence_rpush<W, R, T>(
             let a1 = xraise!(eval(&args[1], ns, &rt)?);
             let seq0 = to_native!(a0, XSequence<W, R, T>);
             let Some(len0) = seq0.len() else { return xerr(ManagedXError::new("sequence is infinite", rt)?); };
-            rt.can_allocate((len0 + 1)* size_of::<usize>())?;
+            rt.can_allocate(len0.saturating_add(1).saturating_mul(size_of::<usize>()))?;
             let mut arr = vec![a1];
             xraise!(arr.try_extend(seq0.iter(ns, rt.clone()))?);
             Ok(manage_native!(XSequence::array(arr), rt))
@@ -775,7 +778,7 @@ pub(crate) fn add_sequence_insert<W, R, T>(
             let a2 = xraise!(eval(&args[2], ns, &rt)?);
             let seq0 = to_native!(a0, XSequence<W, R, T>);
             let Some(len0) = seq0.len() else { return xerr(ManagedXError::new("sequence is infinite", rt)?); };
-            rt.can_allocate((len0 + 1)* size_of::<usize>())?;
+            rt.can_allocate(len0.saturating_add(1).saturating_mul(size_of::<usize>()))?;
             let idx = to_primitive!(a1, Int);
             let idx = xraise!(seq0.value_to_idx(idx, rt.clone())?);
             let mut ret = xraise!(seq0
@@ -803,7 +806,7 @@ pub(crate) fn add_sequence_pop<W, R, T>(
             let a1 = xraise!(eval(&args[1], ns, &rt)?);
             let seq0 = to_native!(a0, XSequence<W, R, T>);
             let Some(len0) = seq0.len() else { return xerr(ManagedXError::new("sequence is infinite", rt)?); };
-            rt.can_allocate(len0.saturating_sub(1) * size_of::<usize>())?;
+            rt.can_allocate(len0.saturating_sub(1).saturating_mul(size_of::<usize>()))?;
             let idx = to_primitive!(a1, Int);
             let idx = xraise!(seq0.value_to_idx(idx, rt.clone())?);
             if len0 == 1 {
@@ -834,7 +837,7 @@ pub(crate) fn add_sequence_set<W, R, T>(
             let a2 = xraise!(eval(&args[2], ns, &rt)?);
             let seq0 = to_native!(a0, XSequence<W, R, T>);
             let Some(len0) = seq0.len() else { return xerr(ManagedXError::new("sequence is infinite", rt)?); };
-            rt.can_allocate(len0* size_of::<usize>())?;
+            rt.can_allocate(len0.saturating_mul(size_of::<usize>()))?;
             let idx = to_primitive!(a1, Int);
             let idx = xraise!(seq0.value_to_idx(idx, rt.clone())?);
             let mut ret = xraise!(seq0
@@ -863,7 +866,7 @@ pub(crate) fn add_sequence_swap<W, R, T>(
             let a2 = xraise!(eval(&args[2], ns, &rt)?);
             let seq0 = to_native!(a0, XSequence<W, R, T>);
             let Some(len0) = seq0.len() else { return xerr(ManagedXError::new("sequence is infinite", rt)?); };
-            rt.can_allocate(len0* size_of::<usize>())?;
+            rt.can_allocate(len0.saturating_mul(size_of::<usize>()))?;
             let idx1 = to_primitive!(a1, Int);
             let idx2 = to_primitive!(a2, Int);
             let mut idx1 = xraise!(seq0.value_to_idx(idx1, rt.clone())?);
@@ -899,7 +902,7 @@ pub(crate) fn add_sequence_to_stack<W, R, T>(
             let a0 = xraise!(eval(&args[0], ns, &rt)?);
             let seq0 = to_native!(a0, XSequence<W, R, T>);
             let Some(len0) = seq0.len() else { return xerr(ManagedXError::new("sequence is infinite", rt)?); };
-            rt.can_allocate(len0* size_of::<usize>())?;
+            rt.can_allocate(len0.saturating_mul(size_of::<usize>()))?;
             let mut ret = XStack::new();
             for x in seq0.iter(ns, rt.clone()) {
                 ret = ret.push(xraise!(x?));
@@ -951,7 +954,7 @@ pub(crate) fn add_sequence_to_array<W, R, T>(
                 return Ok(a0.into());
             }
             let Some(len0) = seq0.len() else { return xerr(ManagedXError::new("sequence is infinite", rt)?); };
-            rt.can_allocate(len0* size_of::<usize>())?;
+            rt.can_allocate(len0.saturating_mul(size_of::<usize>()))?;
             let ret = xraise!(seq0
                 .iter(ns, rt.clone())
                 .collect::<Result<Result<Vec<_>, _>, _>>()?);
@@ -984,7 +987,7 @@ pub(crate) fn add_sequence_sort<W, R, T>(
             let a1 = xraise!(eval(&args[1], ns, &rt)?);
             let seq0 = to_native!(a0, XSequence<W, R, T>);
             let Some(len0) = seq0.len() else { return xerr(ManagedXError::new("sequence is infinite", rt)?); };
-            rt.can_allocate(len0* size_of::<usize>())?;
+            rt.can_allocate(len0.saturating_mul(size_of::<usize>()))?;
             let f = to_primitive!(a1, Function);
             xraise!(seq0.sorted(f, ns, rt.clone())?)
                 .map_or_else(|| Ok(a0.clone().into()), |s| Ok(manage_native!(s, rt)))
@@ -1019,7 +1022,7 @@ pub(crate) fn add_sequence_n_largest<W, R, T>(
             let Some(i1) = to_primitive!(a1, Int).to_usize() else { return xerr(ManagedXError::new("count out of bounds", rt)?); };
             let seq0 = to_native!(a0, XSequence<W, R, T>);
             let Some(len0) = seq0.len() else { return xerr(ManagedXError::new("sequence is infinite", rt)?); };
-            rt.can_allocate(len0* size_of::<usize>())?;
+            rt.can_allocate(len0.saturating_mul(size_of::<usize>()))?;
             let f = to_primitive!(a2, Function);
             let ret = xraise!(seq0.n_largest::<true>(i1, f, ns, rt.clone())?);
             let ret_seq = XSequence::Array(ret);
@@ -1055,7 +1058,7 @@ pub(crate) fn add_sequence_n_smallest<W, R, T>(
             let Some(i1) = to_primitive!(a1, Int).to_usize() else { return xerr(ManagedXError::new("count out of bounds", rt)?); };
             let seq0 = to_native!(a0, XSequence<W, R, T>);
             let Some(len0) = seq0.len() else { return xerr(ManagedXError::new("sequence is infinite", rt)?); };
-            rt.can_allocate(len0* size_of::<usize>())?;
+            rt.can_allocate(len0.saturating_mul(size_of::<usize>()))?;
             let f = to_primitive!(a2, Function);
             let ret = xraise!(seq0.n_largest::<false>(i1, f, ns, rt.clone())?);
             let ret_seq = XSequence::Array(ret);
@@ -1094,7 +1097,7 @@ pub(crate) fn add_sequence_nth_largest<W, R, T>(
             if i1 >= len0{
                 return xerr(ManagedXError::new("index out of bounds", rt)?);
             }
-            rt.can_allocate(len0* size_of::<usize>())?;
+            rt.can_allocate(len0.saturating_mul(size_of::<usize>()))?;
             let f = to_primitive!(a2, Function);
             let ret = xraise!(seq0.quickselect(seq0.len().unwrap()-i1-1, f, ns, rt)?);
             Ok(ret.into())
@@ -1132,7 +1135,7 @@ pub(crate) fn add_sequence_nth_smallest<W, R, T>(
             if i1 >= len0{
                 return xerr(ManagedXError::new("index out of bounds", rt)?);
             }
-            rt.can_allocate(len0* size_of::<usize>())?;
+            rt.can_allocate(len0.saturating_mul(size_of::<usize>()))?;
             let f = to_primitive!(a2, Function);
             let ret = xraise!(seq0.quickselect(i1, f, ns, rt)?);
             Ok(ret.into())
@@ -1756,7 +1759,7 @@ pub(crate) fn add_sequence_dyn_to_str<W, R, T>(
                         let seq0 = to_native!(a0, XSequence<W, R, T>);
                         match seq0.len() {
                             None => return xerr(ManagedXError::new("infinite sequence", rt)?),
-                            Some(len) => rt.can_allocate((len + 2) * size_of::<usize>())?,
+                            Some(len) => rt.can_allocate(len.saturating_add(2).saturating_mul(size_of::<usize>()))?,
                         }
                         let arr0 = seq0.iter(ns, rt.clone());
                         let inner_func = to_primitive!(inner_value, Function);
